@@ -24,8 +24,16 @@ def main():
     ctx = core.Ctx(pid, a.tier, seed, mod)
     try:
         mod.run(ctx)
-    except Exception:
+    except Exception as ex:
+        tb = traceback.format_exc()
         traceback.print_exc()
+        if core.raised_in_production(tb):
+            # an exception that escaped from PRODUCTION code aborted the exploration: that is a candidate violation (the
+            # property quantifies over inputs on which the code must work), confirmed by re-running the explorer
+            ctx.violation("production_code_raised_during_exploration", {"kind": "__explorer__", "tier": a.tier, "seed": seed}, "no exception from production code", f"{type(ex).__name__}: {str(ex)[:160]}")
+            ctx.exhaustive = False
+            ctx.note("exploration aborted by an exception from production code: " + tb[-400:])
+            sys.exit(ctx.finish())
         print(f"HARNESS-ERROR property={pid} explorer raised")
         try:
             ctx.note("explorer raised: " + traceback.format_exc()[-600:])
